@@ -32,6 +32,9 @@ ROWS = [
 ALTS = {IN + "exec": (IN + "exec", "instruction::Exec::exec"),
         "instruction::recreate_instructions": ("instruction::recreate_instructions", "instruction::InstructionWithStr::recreate",
                                                "instruction::Recreate::recreate")}
+# constructs all of whose statements belong to the new scope
+ALL_INSIDE = {r[0] for r in ROWS if r[0].startswith((P % ("block::Block", "Exec", "exec"))[:28]) or "block::Block" in r[0]
+              or "function::anonymous::AnonymousFunction" in r[0] or "function::declaration::FunctionDeclaration" in r[0]}
 # run-time shape of constructs that get their run-time layer from a Block they emit
 EMITS_BLOCK = {"instruction::r#loop::r#for::create_instruction": "for = Block[$iter := .., loop Block[...]]: run-time layers come from the emitted Blocks",
                "instruction::module::new": "module / import = Block[body..., struct of its names]"}
@@ -92,6 +95,14 @@ def run(ctx):
             if not sites:
                 bad = "while its new scope is alive, %s never calls %s" % (bid, u)
                 break
+            # constructs whose whole content lives in the new scope: no call of the body-running function before the
+            # scope exists / after it ended (that would run or fold a statement in the enclosing scope)
+            if bid in ALL_INSIDE:
+                stray = [c for c in b.calls if (c.callee in alts or c.path in alts) and c.bb not in live]
+                if stray:
+                    bad = "%s calls %s outside its new scope (with the enclosing one): what the statement declares leaks into / overwrites the enclosing scope" \
+                          % (bid, stray[0].path.rsplit("::", 1)[-1])
+                    break
             own = [c for bb, c in sites if bb is b]
             if own and not any(derives_from(b, a, layer) for c in own for a in c.args):
                 bad = "%s calls %s with the enclosing scope instead of the one it just created" % (bid, u.rsplit("::", 1)[-1])
